@@ -405,6 +405,12 @@ func (v *Verifier) contractEnv(st *State, con *Contract, cpkg *types.Package, fn
 			var ty types.Type
 			if fn != nil && i < len(fn.Params) {
 				ty = fn.Params[i].Type()
+				// an uninstantiated type parameter of a generic extern: the argument's static type is the better description
+				if _, isTP := types.Unalias(v.substT(ty)).(*types.TypeParam); isTP && i < len(argTys) && argTys[i] != nil && v.sortOf(ty) != args[i].Sort {
+					ty = argTys[i]
+				} else if _, rawTP := types.Unalias(ty).(*types.TypeParam); rawTP {
+					ty = v.substT(ty)
+				}
 			} else if i < len(argTys) {
 				ty = argTys[i]
 			}
@@ -1206,10 +1212,10 @@ func (v *Verifier) appendBuiltin(st *State, tg *callTarget, bind ssa.Value, in s
 				rel := func(b *Term, idx *Term) *Term { return relocate(l.addr, b, idx) }
 				i := mk("Int", "zz_qi")
 				lo := tAdd(slOff(s), slLen(s))
-				stA.assume(mk("Bool", "forall ((zz_qi Int))", tImp(tOr(tCmp("<", i, lo), tCmp(">=", i, tAdd(lo, n))),
-					tEq(mk(h.ElSort, "select", h.arrayTerm(), rel(slBase(s), i)), mk(h.ElSort, "select", oldArr, rel(slBase(s), i))))))
-				stA.assume(mk("Bool", "forall ((zz_qi Int))", tImp(tAnd(tCmp("<=", intLit(0), i), tCmp("<", i, n)),
-					tEq(mk(h.ElSort, "select", h.arrayTerm(), rel(slBase(s), tAdd(lo, i))), mk(h.ElSort, "select", oldArr, rel(slBase(xs), tAdd(slOff(xs), i)))))))
+				v.assumeQInt(stA, i, tImp(tOr(tCmp("<", i, lo), tCmp(">=", i, tAdd(lo, n))),
+					tEq(mk(h.ElSort, "select", h.arrayTerm(), rel(slBase(s), i)), mk(h.ElSort, "select", oldArr, rel(slBase(s), i)))))
+				v.assumeQInt(stA, i, tImp(tAnd(tCmp("<=", intLit(0), i), tCmp("<", i, n)),
+					tEq(mk(h.ElSort, "select", h.arrayTerm(), rel(slBase(s), tAdd(lo, i))), mk(h.ElSort, "select", oldArr, rel(slBase(xs), tAdd(slOff(xs), i))))))
 				if v.col != nil {
 					st.colW = append(st.colW, wrec{h.Key, pElem(slBase(s), v.Y.fresh(v.D, "anyidx", "Int"))})
 				}
@@ -1236,11 +1242,11 @@ func (v *Verifier) appendBuiltin(st *State, tg *callTarget, bind ssa.Value, in s
 			oldArr := oldArrs[h.Key]
 			rel := func(b *Term, idx *Term) *Term { return relocate(l.addr, b, idx) }
 			i := mk("Int", "zz_qi")
-			stB.assume(mk("Bool", "forall ((zz_qi Int))", tImp(tAnd(tCmp("<=", intLit(0), i), tCmp("<", i, slLen(s))),
-				tEq(mk(h.ElSort, "select", h.arrayTerm(), rel(nb, i)), mk(h.ElSort, "select", oldArr, rel(slBase(s), tAdd(slOff(s), i)))))))
+			v.assumeQInt(stB, i, tImp(tAnd(tCmp("<=", intLit(0), i), tCmp("<", i, slLen(s))),
+				tEq(mk(h.ElSort, "select", h.arrayTerm(), rel(nb, i)), mk(h.ElSort, "select", oldArr, rel(slBase(s), tAdd(slOff(s), i))))))
 			if !(nKnown && nlit <= 4) {
-				stB.assume(mk("Bool", "forall ((zz_qi Int))", tImp(tAnd(tCmp("<=", intLit(0), i), tCmp("<", i, n)),
-					tEq(mk(h.ElSort, "select", h.arrayTerm(), rel(nb, tAdd(slLen(s), i))), mk(h.ElSort, "select", oldArr, rel(slBase(xs), tAdd(slOff(xs), i)))))))
+				v.assumeQInt(stB, i, tImp(tAnd(tCmp("<=", intLit(0), i), tCmp("<", i, n)),
+					tEq(mk(h.ElSort, "select", h.arrayTerm(), rel(nb, tAdd(slLen(s), i))), mk(h.ElSort, "select", oldArr, rel(slBase(xs), tAdd(slOff(xs), i))))))
 			}
 		}
 		if nKnown && nlit <= 4 {
@@ -1268,6 +1274,13 @@ func (v *Verifier) appendBuiltin(st *State, tg *callTarget, bind ssa.Value, in s
 	v.pendingForks = append(v.pendingForks, stB)
 	st.assume(fits)
 	doInPlace(st)
+}
+
+// assumeQInt assumes forall i. body (i is the bound variable term occurring in body) and also registers the fact for
+// engine-side instantiation at the skolem / index terms of later goals (E-matching fails on offset arithmetic).
+func (v *Verifier) assumeQInt(st *State, bound *Term, body *Term) {
+	st.assume(mk("Bool", "forall (("+bound.Op+" Int))", body))
+	st.qfacts = append(st.qfacts, qfact{sort: "Int", inst: func(idx *Term) *Term { return substTerm(body, bound, idx) }})
 }
 
 // relocate rewrites a leaf address template (built on elem(base0, 0)) to elem(b, idx)
@@ -1527,6 +1540,24 @@ func (v *Verifier) bindLoopVars(st *State, env *Env, h *ssa.BasicBlock) {
 			if t, ok := f.vals[phi]; ok {
 				env.vars["zz_i"] = Val{tAdd(t, intLit(1)), types.Typ[types.Int]}
 			}
+		}
+	}
+	if _, ok := env.vars["zz_i"]; !ok {
+		// a loop nested in the body of a range-over-slice loop: zz_i is the enclosing loop's completed iterations
+		var outer *ssa.Phi
+		n := 0
+		for _, b := range h.Parent().Blocks {
+			for _, in := range b.Instrs {
+				if phi, ok := in.(*ssa.Phi); ok && phi.Comment == "rangeindex" {
+					if _, bound := f.vals[phi]; bound && loopBlocks(b)[h] {
+						outer = phi
+						n++
+					}
+				}
+			}
+		}
+		if n == 1 {
+			env.vars["zz_i"] = Val{tAdd(f.vals[outer], intLit(1)), types.Typ[types.Int]}
 		}
 	}
 }
